@@ -292,7 +292,9 @@ theorem closure_runs_once (c : Cfg) (hc : c.Good) (s : St) (h : Reachable c s) (
 
 /-- **join_returns_value**: whenever `join` has returned `r`, the thread has issued its exit, the kernel has
 cleared and woken the futex word, H has synchronised with that (so the slot read happens-after the slot write:
-no race), and `r` is the closure's outcome — `some v` iff it returned `v`, `none` iff it panicked -/
+no race), and `r` is the closure's outcome — `some v` iff it returned `v`, `none` iff it panicked (`panicked` = the
+thread entered the panic handler; for a joined thread that can only be the closure's panic: the destructor of a
+result runs on the thread only when the handle was dropped, `dpanic`) -/
 theorem join_returns_value (c : Cfg) (hc : c.Good) (s : St) (h : Reachable c s) (i : Nat) (r : Option Nat)
     (hj : (s.inst i).joinRes = some r) :
     (s.inst i).t = .dead ∧ (s.inst i).kdone = true ∧ (s.inst i).hsees = true ∧ (s.inst i).raced = false ∧
@@ -312,7 +314,14 @@ theorem join_returns_value (c : Cfg) (hc : c.Good) (s : St) (h : Reachable c s) 
   have hret := inv.ret2 hpw
   refine ⟨hdead, haw.1, haw.2, inv.nrace, by rw [hret.1, hslot], ?_, ?_, ?_⟩
   · intro v; rw [hret.1, hslot]; simp
-  · rw [hslot]; exact hret.2.symm
+  · -- a destructor panic happens only on a thread whose handle was dropped: never on a joined one
+    have hdp : (s.inst i).dpanic = false := by
+      cases hd : (s.inst i).dpanic
+      · rfl
+      · have hw := (inv.dpI hd).2.1
+        have hdet := inv.wH.mp hw
+        rw [hdet] at hrd; cases hrd
+    rw [hslot, ← hret.2, hdp]; simp
   · rw [inv.runsI, hdead]; rfl
 
 /-- join's read of the slot is enabled only once the kernel has finished the thread's exit -/
@@ -336,6 +345,7 @@ def nextTK (x : Inst) : Ev :=
   | .pRead => .tPanicRead
   | .cas => .tCas (!x.flag)
   | .setTid => .tSetTid
+  | .dropVal => .tDropVal
   | .freeTsm => .tFreeTsm
   | .freeTls => .tFreeTls
   | .freeBox => .tFreeBox
